@@ -424,7 +424,7 @@ func runC08(r *Report) {
 					h := rg0.Parent()
 					for i, hp := range h.Params {
 						if i < len(rg.Common().Args) {
-							o = strings.ReplaceAll(o, "param:"+hp.Name(), originSummary(rg.Common().Args[i]))
+							o = strings.ReplaceAll(o, "param:"+canonParamName(hp), originSummary(rg.Common().Args[i]))
 						}
 					}
 					return o
